@@ -148,6 +148,10 @@ func (r *Run) Violate(property, oracle, class, format string, a ...interface{}) 
 	r.vioKeys[v.Key()] = true
 	r.violations = append(r.violations, v)
 	r.Event("VIOLATION %s", v.Key())
+	if os.Getenv("VERIF_DEBUG") == "stacks" {
+		buf := make([]byte, 1<<20)
+		fmt.Fprintf(os.Stderr, "=== goroutines at %s\n%s\n", v.Key(), buf[:runtime.Stack(buf, true)])
+	}
 }
 
 // Stamp returns the next global event sequence number (history timestamps).
@@ -443,6 +447,14 @@ func Execute(t *testing.T, spec RunSpec) (res RunResult) {
 					// expected when a run leaks goroutines; leaks are reported by the oracles
 					return
 				}
+				if strings.Contains(msg, "refused by the guard") {
+					// an oracle decoded hostile bytes on the scheduler's goroutine and hit the allocation
+					// guard: what has been judged so far stands, nothing further is judged
+					if r != nil {
+						r.Probes["huge_alloc_refused_in_oracle"]++
+					}
+					return
+				}
 				if !bodyDone {
 					msg = "scenario body did not return (blocked on the scheduler's own goroutine?): " + msg
 				}
@@ -552,4 +564,19 @@ func debugf(format string, a ...interface{}) {
 	if os.Getenv("VERIF_DEBUG") != "" {
 		fmt.Fprintf(os.Stderr, format+"\n", a...)
 	}
+}
+
+// guardHuge runs f and reports whether it hit the allocation guard (simrt.HugeAlloc); other panics pass.
+func guardHuge(f func()) (huge bool) {
+	defer func() {
+		if p := recover(); p != nil {
+			if _, ok := p.(simrt.HugeAlloc); ok {
+				huge = true
+				return
+			}
+			panic(p)
+		}
+	}()
+	f()
+	return false
 }
